@@ -102,7 +102,7 @@ def extrapolate_templates(sid_templates: Mapping[str, str], to_extrapolate: List
                 key = part.split(':')[0].replace('{', '').replace('}', '')
 
                 # building the new type and template
-                new_type = sid_type.replace(keytype, key)
+                new_type = sid_type[: len(sid_type) - len(keytype)] + key
                 new_template = '/'.join(parts[:len(parts)-i])
 
                 # we skip if template is already defined by another type
